@@ -329,7 +329,6 @@ type trafficLeg struct {
 	merged, deduped, geo, reordered, byRule      *atomic.Int64
 	negMergeable                                 *atomic.Int64
 	outcomes                                     hist
-	samples                                      atomic.Int64
 	dupSkipped                                   *atomic.Int64
 	seenMu                                       sync.Mutex
 	seen                                         map[uint64]struct{}
@@ -655,7 +654,7 @@ func (t *trafficLeg) one(spaceOrd int, idx int, prog *vroute.Program, opts vrout
 		t.nontrivial.Add(n)
 	}
 	t.outcomes.add(local)
-	if changedVsBase && len(pkts) > 0 && idx%977 == 5 && t.samples.Add(1) <= 3 {
+	if len(pkts) > 0 && ((spaceOrd == 1 && idx == 1) || (spaceOrd == 2 && idx == 18)) { // fixed positions: the evidence is the same on every run
 		d, hit := c.ref.Decide(&pkts[len(pkts)/2])
 		t.r.Sample(map[string]any{"pipeline": "traffic", "list_as_written": prog.OneLine(), "lowered": optText, "packets": len(pkts),
 			"one_packet": pkts[len(pkts)/2].Key(), "its_decision": d.String(), "by_rule": hit.Rule})
